@@ -79,7 +79,8 @@ static int process_data(xfrm_stream_t *stream, const void *in,
 	if (flush_mode < 0 || flush_mode >= XFRM_STREAM_FLUSH_COUNT)
 		flush_mode = XFRM_STREAM_FLUSH_NONE;
 
-	while (in_size > 0 && out_size > 0) {
+	while ((in_size > 0 || flush_mode == XFRM_STREAM_FLUSH_FULL) &&
+	       out_size > 0) {
 		xz->strm.next_in = in;
 		xz->strm.avail_in = in_size;
 
@@ -103,14 +104,23 @@ static int process_data(xfrm_stream_t *stream, const void *in,
 		out_size -= diff;
 		*out_written += diff;
 
-		if (ret_xz == LZMA_BUF_ERROR)
-			return XFRM_STREAM_BUFFER_FULL;
-
 		if (ret_xz == LZMA_STREAM_END) {
 			lzma_end(&xz->strm);
 			xz->initialized = false;
 			return XFRM_STREAM_END;
 		}
+
+		/* no more input will follow and nothing is left to unpack */
+		if (!xz->compress && in_size == 0 && diff == 0 &&
+		    flush_mode == XFRM_STREAM_FLUSH_FULL) {
+			if (xz->strm.total_in > 0)
+				return XFRM_STREAM_ERROR;
+
+			return XFRM_STREAM_END;
+		}
+
+		if (ret_xz == LZMA_BUF_ERROR)
+			return XFRM_STREAM_BUFFER_FULL;
 	}
 
 	return XFRM_STREAM_OK;
